@@ -1,0 +1,57 @@
+//go:build verif
+
+package db
+
+import (
+	"reflect"
+
+	lru "github.com/hashicorp/golang-lru"
+
+	"github.com/zenon-network/go-zenon/common/types"
+)
+
+// Verification-only, read-only export (build tag verif): the content of the two levels of the rollback-overlay
+// cache of the leveldb manager, so an external harness can compare it with a formal model after every operation.
+
+// CacheEntryVerif is one cache entry: the identifier it is filed under, the frontier it is tagged with, the identity
+// of the overlay object (the same object may be referenced by both levels and by views handed out earlier) and the
+// raw content of the object in key order (a tombstone is the empty value).
+type CacheEntryVerif struct {
+	Id  types.HashHeight
+	Tag types.HashHeight
+	Obj uintptr
+	Raw [][2][]byte
+}
+
+func dumpCacheVerif(c *lru.Cache) []CacheEntryVerif {
+	if c == nil {
+		return nil
+	}
+	var out []CacheEntryVerif
+	for _, k := range c.Keys() { // oldest to newest; Keys and Peek do not touch the recency order
+		v, ok := c.Peek(k)
+		if !ok {
+			continue
+		}
+		rc := v.(*rollbackCache)
+		e := CacheEntryVerif{Id: k.(types.HashHeight), Tag: rc.frontier, Obj: reflect.ValueOf(rc.raw).Pointer()}
+		it := rc.raw.NewIterator(nil)
+		for it.Next() {
+			e.Raw = append(e.Raw, [2][]byte{append([]byte{}, it.Key()...), append([]byte{}, it.Value()...)})
+		}
+		it.Release()
+		out = append(out, e)
+	}
+	return out
+}
+
+// VerifCacheDump returns the entries of both cache levels of a leveldb manager (ok = false for any other manager).
+func VerifCacheDump(m Manager) (l1, l2 []CacheEntryVerif, ok bool) {
+	lm, isLdb := m.(*ldbManager)
+	if !isLdb {
+		return nil, nil, false
+	}
+	lm.changes.Lock()
+	defer lm.changes.Unlock()
+	return dumpCacheVerif(lm.l1Cache), dumpCacheVerif(lm.l2Cache), true
+}
